@@ -208,6 +208,12 @@ impl Compactor {
 		}
 
 		writer.finish()?;
+
+		// The new table must be durable before the manifest refers to it and the input
+		// tables are deleted (flush does the same for level-0 tables).
+		let file = crate::vfs::open_for_sync(path)?;
+		file.sync_all()?;
+
 		Ok(true)
 	}
 
